@@ -152,7 +152,7 @@ def run_inst(spec, run):
         run.sample({"model": pl.show(model_spec), "path_condition": [str(z3.simplify(c)) for c in ctx.pc][:8],
                     "result_top": str(z3.simplify(S.term(res["top"].lower)))[:300]})
 
-    st = S.explore(fn, on_path, max_paths=6000, wall=900)
+    st = S.explore(fn, on_path, max_paths=30000, wall=2400)
     return run.result(st)
 
 
